@@ -30,6 +30,17 @@ class Skip(Exception):
         self.reason = reason
 
 
+class CaseTimeout(BaseException):
+    """raised by the SIGALRM watchdog: the code under test produced no result"""
+
+
+CASE_TIME_LIMIT = float(os.environ.get("PV_CASE_TIME_LIMIT", "120"))
+
+
+def _alarm(signum, frame):
+    raise CaseTimeout()
+
+
 class Ctx:
     """Per-case recorder handed to ``check``."""
 
@@ -121,12 +132,28 @@ def run_case(clause, case):
     outcome in {"ok", "violation", "skip"}; any other exception propagates."""
     ctx = Ctx()
     out = {"outcome": "ok", "sig": None, "msg": "", "skip": None}
+    import signal
+    use_alarm = hasattr(signal, "setitimer") and CASE_TIME_LIMIT > 0
+    if use_alarm:
+        try:
+            old = signal.signal(signal.SIGALRM, _alarm)
+            signal.setitimer(signal.ITIMER_REAL, CASE_TIME_LIMIT)
+        except ValueError:      # not in the main thread
+            use_alarm = False
     try:
         clause.check(case, ctx)
+    except CaseTimeout:
+        # typical cases take milliseconds; no result after minutes is reported as non-termination
+        out.update(outcome="violation", sig="%s/no_result_within_%ds" % (clause.name, CASE_TIME_LIMIT),
+                   msg="the call did not return within %d s (typical case: milliseconds) - non-termination" % CASE_TIME_LIMIT)
     except Violation as v:
         out.update(outcome="violation", sig="%s/%s" % (clause.name, v.sig), msg=v.msg[:600])
     except Skip as s:
         out.update(outcome="skip", skip=s.reason)
+    finally:
+        if use_alarm:
+            signal.setitimer(signal.ITIMER_REAL, 0)
+            signal.signal(signal.SIGALRM, old)
     out["labels"] = ctx.labels
     out["value"] = ctx.cross_value
     out["nontrivial"] = ctx.is_nontrivial and out["outcome"] != "skip"
@@ -208,12 +235,15 @@ def _size(case):
     return len(json.dumps(case))
 
 
-def shrink(clause, case, sig, budget=400, valid=None):
-    """Greedy structural + numeric shrinking keeping the same signature."""
+def shrink(clause, case, sig, budget=400, valid=None, wall=60.0):
+    """Greedy structural + numeric shrinking keeping the same signature (bounded by calls and wall time)."""
+    import time
     calls = [0]
+    t_end = time.time() + wall
 
     def fails(c):
-        if calls[0] >= budget:
+        if calls[0] >= budget or time.time() > t_end:
+            calls[0] = budget
             return False
         calls[0] += 1
         try:
